@@ -36,6 +36,9 @@ class GraphECU(UDSServer):
         # until then it goes on answering from the session it was in
         self.reset_delay = 0.0
         self.late_resets = 0
+        # session ids whose DiagnosticSessionControl request this ECU does not answer at all (and does not act upon)
+        self.silent: set[int] = set()
+        self.silent_fired = 0
         self.monitor = Monitor()
         self._services: dict[int, dict[UDSIsoServices, list[int] | None]] = {}
         for s, ts in self.graph.items():
@@ -61,6 +64,11 @@ class GraphECU(UDSServer):
             if hasattr(self, "replies"):
                 self.replies.append((before, bytes(request.pdu), resp.pdu))
             return resp
+        if request.pdu[:1] == b"\x10" and len(request.pdu) == 2 and (request.pdu[1] & 0x7F) in self.silent:
+            self.silent_fired += 1
+            if hasattr(self, "replies"):
+                self.replies.append((before, bytes(request.pdu), None))
+            return None
         resp = await super().respond(request)
         if (self.refuse_nrc is not None and request.pdu[:1] == b"\x10" and len(request.pdu) == 2 and isinstance(resp, service.NegativeResponse)
                 and int(resp.response_code) in (0x12, 0x7E)):
